@@ -533,7 +533,7 @@ def gen_C16(seed, tier):
         ops = [
             "apply %s %s" % (xt(), sv()), "applyTranspose %s %s" % (xt(), sv()),
             "applyAdjoint %s %s" % (xt(), sv()), "inverse %s" % xt(), "mul %s %s" % (xt(), xt()),
-            "mulAssign %s %s" % (xt(), xt()), "toMatrix %s" % xt(), "toMatrixAdjoint %s" % xt(),
+            "mulAssign %s %s" % (xt(), xt()), "mulSelf %s" % xt(), "toMatrix %s" % xt(), "toMatrixAdjoint %s" % xt(),
             "toMatrixTranspose %s" % xt(), "rbiMul %s %s" % (rbi(), sv()), "rbiAdd %s %s" % (rbi(), rbi()),
             "rbiToMatrix %s" % rbi(), "rbiSetSpatialMatrix %s" % rbi(), "rbiFromMatrix %s" % rbi(),
             "rbiFromMassComInertiaC %s %s %s" % (G.fr(g.pos()), G.frs(g.vec(-1, 1)), G.frs(g.inertia())),
@@ -638,8 +638,12 @@ def gen_cs(prefix, seed, tier, nq, nt, calls_fn, classes, fext_prob=0.0, baumgar
 
 
 def calls_C09(g, mb, cb):
-    return ["call CJ 1 1", "call CPE 1 1", "call CVE 1 1", "call CSV 1 1",
-            "poison %d" % g.r.randint(1, 10 ** 6), "call UKC 1", "call CJ 0 0", "call CPE 0 0"]
+    c = ["call CJ 1 1", "call CPE 1 1", "call CVE 1 1", "call CSV 1 1",
+         "poison %d" % g.r.randint(1, 10 ** 6), "call UKC 1", "call CJ 0 0", "call CPE 0 0"]
+    # the reported position error OFF the manifold (the documented quantity: relative displacement and
+    # sine-scaled relative rotation in predecessor-frame axes); only the error is compared there
+    c += [mb.render_q(mb.perturb_q(cb.q_ents, F(1, 4))), "call CPE 1 1"]
+    return c
 
 
 def gen_C09(seed, tier):
@@ -825,6 +829,11 @@ def gen_C17(seed, tier):
         body.append(mb.render_q(init))
         body.append("call CAQ %s %d %s" % ("1/10000000000", 60, G.frs(wts)))
         body.append(body[-1].replace("call CAQ ", "call CAQT ", 1))
+        # an almost assembled initial guess: position error between the tolerance and its square root
+        # (a configuration read back with 8 digits, or the result of a coarser earlier solve)
+        body.append(mb.render_q(mb.perturb_q(cb.q_ents, F(1, 10 ** 8))))
+        body.append("call CAQ %s %d %s" % ("1/1000000000000", 60, G.frs(wts)))
+        g.stats["assembly:almost-assembled-guess"] += 1
         cid = "c17asm%s_%d" % (klass, made)
         out.append("case " + cid); out.append(grav); out += mb.lines; out += body
         made += 1
